@@ -274,7 +274,8 @@ def run(ctx):
     # ---------------- R13.4 regexes -----------------------------------------------------
     pats = {}
     for p, b in fb.bodies.items():
-        if "parser::" in p and "RE_VAR_NAME" in p and "__static_ref_initialize" in p and "is_literal" not in p:
+        # the initialiser of the static regex: lazy_static's `__static_ref_initialize`, or the closure of a LazyLock / OnceLock
+        if "parser::" in p and "RE_VAR_NAME" in p and "is_literal" not in p:
             for _, t in mir.calls(b):
                 if mir.callee_path(t) == "regex::Regex::new" and t["args"]:
                     c = mir.trace_const(b, t["args"][0])
@@ -317,7 +318,7 @@ def run(ctx):
                 return False
             bare = brace = False
             if isinstance(tm, tuple) and tm[0] == "regex::Match::<'h>::as_str" and len(tm[1]) == 1:
-                m_ = re.match(r"^\(regex::Regex::find\((.*RE_VAR_NAME\}?\)?), (std::ops::Index::index\(.*\))\) as Some\)\.0$", _dom.unparse_term(tm[1][0]))
+                m_ = re.match(r"^\(regex::Regex::find\((.*RE_VAR_NAME\}?\)*), (std::ops::Index::index\(.*\))\) as Some\)\.0$", _dom.unparse_term(tm[1][0]))
                 if m_ and "RE_VAR_NAME_EXACT" not in m_.group(1) and is_rest(_dom.parse_term(m_.group(2))):
                     bare = True
             if isinstance(tm, tuple) and tm[0] == "std::ops::Index::index" and len(tm[1]) == 2 and is_rest(tm[1][0]):
